@@ -266,3 +266,65 @@ Proof.
     + destruct (take 8 bs) as [[a b]|] eqn:E; [|discriminate]. inversion H; subst.
       rewrite (msgw_take_ext _ _ _ _ ext E). split; [reflexivity|eapply msgw_take_rest_len; exact E].
 Qed.
+
+(* ---------- ConsumeGroup on a body followed by a minimal end tag ---------- *)
+Lemma msgw_enc_fuel_last : forall k v,
+  (0 < k)%nat -> 0 < v -> v < 2^(7 * (N.of_nat k - 1) + 1) ->
+  exists i l, enc_varint_fuel k v = i ++ [l] /\ b2n l mod 128 <> 0.
+Proof.
+  induction k as [|k IH]; intros v Hk Hv Hcap; [lia|].
+  cbn [enc_varint_fuel]. destruct (v <? 128) eqn:Hlt.
+  - exists [], (n2b v). split; [reflexivity|]. rewrite b2n_n2b by lia. rewrite N.mod_small by lia. lia.
+  - destruct k as [|k'].
+    + replace (7 * (N.of_nat 1 - 1) + 1) with 1 in Hcap by lia. change (2^1) with 2 in Hcap. lia.
+    + assert (Hq : v / 128 < 2 ^ (7 * (N.of_nat (S k') - 1) + 1)).
+      { replace (7 * (N.of_nat (S (S k')) - 1) + 1) with (7 * (N.of_nat (S k') - 1) + 1 + 7) in Hcap by lia.
+        rewrite N.pow_add_r in Hcap. change (2^7) with 128 in Hcap.
+        apply N.div_lt_upper_bound; lia. }
+      destruct (IH (v / 128) ltac:(lia) ltac:(lia) Hq) as (i & l & E & Hl).
+      exists (n2b (v mod 128 + 128) :: i), l. rewrite E. split; [reflexivity|exact Hl].
+Qed.
+
+Lemma msgw_strip_zero7_last i l rest : b2n l mod 128 <> 0 -> strip_zero7 (rev (i ++ [l]) ++ rest) = rev (i ++ [l]) ++ rest.
+Proof.
+  intros H. rewrite rev_app_distr. cbn [rev app strip_zero7].
+  replace (b2n l mod 128 =? 0) with false by lia. reflexivity.
+Qed.
+
+Lemma msgw_consume_group_enc num body tail w :
+  1 <= num -> num <= 536870911 ->
+  parse_val default_dep num 3 (body ++ enc_tag num 4) = Ok (w, []) ->
+  consume_group num (body ++ enc_tag num 4 ++ tail) =
+    Ok (Some body, N.of_nat (length (body ++ enc_tag num 4))) /\
+  skipn (length (body ++ enc_tag num 4)) (body ++ enc_tag num 4 ++ tail) = tail.
+Proof.
+  intros Hlo Hhi Hp.
+  destruct (msgw_parse_val_ext _ _ _ _ tail _ _ Hp) as [Hp' _]. cbn [app] in Hp'.
+  rewrite <- app_assoc in Hp'.
+  assert (Hskip : skipn (length (body ++ enc_tag num 4)) (body ++ enc_tag num 4 ++ tail) = tail).
+  { rewrite app_assoc. rewrite skipn_app, Nat.sub_diag, skipn_all. reflexivity. }
+  split; [|exact Hskip].
+  unfold consume_group. rewrite Hp'.
+  assert (Hn : (length (body ++ enc_tag num 4 ++ tail) - length tail)%nat = length (body ++ enc_tag num 4)).
+  { rewrite !app_length. lia. }
+  rewrite Hn.
+  assert (Hfirst : firstn (length (body ++ enc_tag num 4)) (body ++ enc_tag num 4 ++ tail) = body ++ enc_tag num 4).
+  { rewrite app_assoc. rewrite firstn_app, Nat.sub_diag, firstn_all. cbn [firstn]. apply app_nil_r. }
+  rewrite Hfirst.
+  (* the end tag is minimal: nothing is stripped *)
+  assert (Hlast : exists i l, enc_tag num 4 = i ++ [l] /\ b2n l mod 128 <> 0).
+  { unfold enc_tag, enc_varint. apply msgw_enc_fuel_last; [lia|unfold encode_tag; lia|].
+    unfold encode_tag. change (4 mod 8) with 4. change (2 ^ (7 * (N.of_nat 10 - 1) + 1)) with 18446744073709551616. lia. }
+  destruct Hlast as (i & l & El & Hl).
+  assert (Hstrip : rev (strip_zero7 (rev (body ++ enc_tag num 4))) = body ++ enc_tag num 4).
+  { rewrite rev_app_distr, El. rewrite msgw_strip_zero7_last by exact Hl.
+    rewrite <- rev_app_distr. apply rev_involutive. }
+  rewrite Hstrip.
+  assert (Hk : N.to_nat (size_tag num) = length (enc_tag num 4)).
+  { rewrite <- (msgw_enc_tag_length num 4) by (change (2^61) with 2305843009213693952; lia). lia. }
+  rewrite Hk. rewrite app_length.
+  replace (Nat.ltb (length body + length (enc_tag num 4)) (length (enc_tag num 4))) with false
+    by (symmetry; apply Nat.ltb_ge; lia).
+  replace (length body + length (enc_tag num 4) - length (enc_tag num 4))%nat with (length body) by lia.
+  rewrite firstn_app, Nat.sub_diag, firstn_all. cbn [firstn]. rewrite app_nil_r. reflexivity.
+Qed.
